@@ -9,9 +9,11 @@ from absval import *
 ABS = frozenset(["abs"])
 
 PANICKY = re.compile(
-    r"(::unwrap|::expect|::index|::index_mut|panicking::|::split_at|::copy_from_slice|::chunks|"
-    r"Vec::<.*>::(remove|insert|swap_remove|drain|split_off)|::pow$|::abs$|div_euclid|rem_euclid|"
-    r"::slice_index|str::.*::index|::swap$|::rotate_|::copy_within|::split_off|::first_chunk|::last_chunk)")
+    r"(::unwrap$|::expect$|::unwrap_err$|::expect_err$|::unwrap_unchecked$|::index$|::index_mut$|panicking::|::split_at(_mut)?$|"
+    r"::copy_from_slice$|::clone_from_slice$|::chunks_exact|"
+    r"Vec::<.*>::(remove|insert|swap_remove|drain|split_off)$|::pow$|::abs$|div_euclid$|rem_euclid$|"
+    r"::swap$|::rotate_(left|right)$|::copy_within$|::first_chunk$|::last_chunk$|::from_utf8_unchecked$|"
+    r"::get_unchecked(_mut)?$|::add$|::sub$|::offset$|::read$|::write$|::assume_init|transmute)")
 
 
 def may_panic_name(name):
@@ -269,7 +271,7 @@ def contract_call(eng, st, site, func, args, dty):
             if eng.add(s_ok, c_le(n.lin, L)):
                 region = reader_region(view, n.lin)
                 reader_advance(eng, s_ok, view, n.lin)
-                s_ok.emit(("bytes", rid, n, site_info(site), True))
+                s_ok.emit(("bytes", rid, n, site_info(site), True, region.start))
                 out.append((s_ok, mk_option(eng, dty, True, region)))
             if eng.add(st, c_lt(L, n.lin)):
                 # None: the contract only promises the reader does not grow
@@ -281,7 +283,7 @@ def contract_call(eng, st, site, func, args, dty):
                 else:
                     s = v.variants[0][0]
                     eng.store(st, loc[0], loc[1], VAdt(v.ty, v.vidx, {0: (VSlice(s.base, eng.top_int(us).lin, nl.lin, s.elem),)}, v.base))
-                st.emit(("bytes", rid, n, site_info(site), False))
+                st.emit(("bytes", rid, n, site_info(site), False, None))
                 out.append((st, mk_option(eng, dty, False)))
             return out
         return None
